@@ -542,6 +542,11 @@ def render_query(info, model, spaced=False):
 def replay_requests(kind):
     def build(rec):
         info = rec.get("replay_info")
+        if info and "queries" in info:
+            reqs = [{"kind": kind, "query": q} for q in info["queries"]]
+            if info.get("sequence") and kind == "C04":
+                reqs.insert(0, {"kind": "C04seq", "queries": ["  ", "(a "] + info["queries"]})
+            return reqs
         if not info or "production" not in info:
             return []
         qs = []
